@@ -8,6 +8,7 @@ construction (values, dtype, index, columns)."""
 import copy
 import itertools
 import json
+import resource
 from fractions import Fraction
 
 import numpy
@@ -266,14 +267,34 @@ def calls_of(inp):
     return inp['calls'] if inp['kind'] == 'seq' else [inp]
 
 
+def _vmsize():
+    try:
+        with open('/proc/self/status') as f:
+            for line in f:
+                if line.startswith('VmSize:'):
+                    return int(line.split()[1]) * 1024
+    except Exception:
+        pass
+    return 8 << 30
+
+
 def run_impl(inp):
-    objs = Objects()
-    steps = []
-    for call in calls_of(inp):
-        out = run_call(call, objs)
-        out['unchanged'] = objs.unchanged()
-        steps.append(out)
-    return {'ok': all(s['ok'] for s in steps), 'steps': steps}
+    # a regression that sizes an array by a coordinate instead of an annotation id must end as an
+    # exception of that call (a failing input), not as the OOM killer taking the whole run down
+    soft, hard = resource.getrlimit(resource.RLIMIT_AS)
+    cap = _vmsize() + (4 << 30)
+    if hard == resource.RLIM_INFINITY or cap < hard:
+        resource.setrlimit(resource.RLIMIT_AS, (cap, hard))
+    try:
+        objs = Objects()
+        steps = []
+        for call in calls_of(inp):
+            out = run_call(call, objs)
+            out['unchanged'] = objs.unchanged()
+            steps.append(out)
+        return {'ok': all(s['ok'] for s in steps), 'steps': steps}
+    finally:
+        resource.setrlimit(resource.RLIMIT_AS, (soft, hard))
 
 
 # ----------------------------------------------------------------------------------------
